@@ -92,6 +92,7 @@ structure St where
   metaDur : Int               -- the policy's Duration in the catalogue
   cat : List Group            -- the policy's ShardGroups
   eng : List EShard           -- shards the store has (loaded)
+  disk : List Nat             -- shard ids whose data / wal directories exist on the store
   nilMap : List DurInfo       -- nilShardMap of the current run
   queue : List QItem          -- expiredShards still to be processed by the current run
   pending : List Nat          -- PendingInfo.pendingId
@@ -175,7 +176,7 @@ inductive DelScript
 deriving DecidableEq, Repr
 
 inductive DelRes
-  | ok | notFound | failed | timedOut | stillPending
+  | ok | notFound | failed | timedOut | stillPending | closedErr
 deriving DecidableEq, Repr
 
 /-- scripted outcome of the three calls made for one expired shard. -/
@@ -187,6 +188,13 @@ deriving DecidableEq, Repr
 
 def Outcome.good : Outcome := ⟨true, .ok, true⟩
 
+/-- `EngineImpl.DeleteShard`: the shard leaves `DBPTInfo.shards` first; `Close()` of a shard
+that is already closing fails (`ErrShardClosed`) and the directories stay. -/
+def engDelRes (sid : Nat) (eng : List EShard) : DelRes :=
+  match eng.find? (fun s => s.sid == sid) with
+  | some s => if s.idx then .ok else .closedErr
+  | none => .notFound
+
 /-- `DeleteShardOrIndex`: refused while pending; a timeout enters the pending state and
 leaves the store untouched until the background delete completes. -/
 def delRes (sc : DelScript) (sid : Nat) (eng : List EShard) (pending : List Nat) : DelRes :=
@@ -194,12 +202,17 @@ def delRes (sc : DelScript) (sid : Nat) (eng : List EShard) (pending : List Nat)
   else match sc with
     | .timeout => .timedOut
     | .fail => .failed
-    | .ok => if eng.any (·.sid == sid) then .ok else .notFound
+    | .ok => engDelRes sid eng
 
 def delEng (r : DelRes) (sid : Nat) (eng : List EShard) : List EShard :=
   match r with
-  | .ok => eng.filter fun s => s.sid != sid
+  | .ok | .closedErr => eng.filter fun s => s.sid != sid
   | _ => eng
+
+def delDisk (r : DelRes) (sid : Nat) (disk : List Nat) : List Nat :=
+  match r with
+  | .ok => disk.filter fun x => x != sid
+  | _ => disk
 
 def delPending (r : DelRes) (sid : Nat) (pending : List Nat) : List Nat :=
   match r with
@@ -208,7 +221,7 @@ def delPending (r : DelRes) (sid : Nat) (pending : List Nat) : List Nat :=
 
 def evs (o : Outcome) (r : DelRes) (panics : Bool) (q : QItem) (now : Int) : List Ev :=
   (if o.markOk then [⟨.markedGroup, q.gid, q.endT, q.dUsed, now⟩] else []) ++
-  (if r = .ok then [⟨.deletedShard, q.sid, q.endT, q.dUsed, now⟩] else []) ++
+  (if r = .ok ∨ r = .closedErr ∨ r = .timedOut then [⟨.deletedShard, q.sid, q.endT, q.dUsed, now⟩] else []) ++
   (if o.pruneOk && !panics then [⟨.prunedShard, q.sid, q.endT, q.dUsed, now⟩] else [])
 
 /-- the body of the `for i := range expiredShards` loop of `HandleLocalStorage`:
@@ -219,7 +232,8 @@ def procItem (o : Outcome) (q : QItem) (σ : St) : St :=
   let r := delRes o.del q.sid σ.eng σ.pending
   let panics := pruneWouldPanic cat1
   let cat2 := if o.pruneOk && !panics then pruneCat q.sid cat1 else cat1
-  { σ with cat := cat2, eng := delEng r q.sid σ.eng, pending := delPending r q.sid σ.pending,
+  { σ with cat := cat2, eng := delEng r q.sid σ.eng, disk := delDisk r q.sid σ.disk,
+           pending := delPending r q.sid σ.pending,
            log := evs o r panics q σ.clock ++ σ.log }
 
 inductive Op
@@ -236,7 +250,9 @@ deriving Repr
 def loadShard (sid : Nat) (σ : St) : St :=
   if σ.eng.any (·.sid == sid) then σ
   else match (durInfos σ.cat σ.metaDur).find? (fun i => i.sid == sid) with
-    | some i => { σ with eng := σ.eng ++ [⟨sid, 0, i.endT, true, σ.metaDur⟩], seen := σ.metaDur :: σ.seen }
+    | some i => { σ with eng := σ.eng ++ [⟨sid, 0, i.endT, true, σ.metaDur⟩],
+                         disk := if σ.disk.contains sid then σ.disk else sid :: σ.disk,
+                         seen := σ.metaDur :: σ.seen }
     | none => σ
 
 def refreshOk (σ : St) : St :=
@@ -247,6 +263,13 @@ def refreshOk (σ : St) : St :=
 def collect (σ : St) : St :=
   let q := sortQ (expiredShards σ.clock σ.eng σ.nilMap)
   { σ with queue := q, phase := if q.isEmpty then .idle else .processing }
+
+/-- the background deletes that had timed out run now (`EngineImpl.DeleteShard` each). -/
+def completeAll : List Nat → St → St
+  | [], σ => σ
+  | sid :: rest, σ =>
+    let r := engDelRes sid σ.eng
+    completeAll rest { σ with eng := delEng r sid σ.eng, disk := delDisk r sid σ.disk }
 
 def step (σ : St) : Op → St
   | .tick dt => if 0 ≤ dt then { σ with clock := σ.clock + dt } else σ
@@ -267,8 +290,7 @@ def step (σ : St) : Op → St
       let σ' := procItem o q σ
       { σ' with queue := rest, phase := if rest.isEmpty then .idle else .processing }
     | _, _ => σ
-  | .complete =>
-    { σ with eng := σ.eng.filter (fun s => !σ.pending.contains s.sid), pending := [] }
+  | .complete => completeAll σ.pending { σ with pending := [] }
 
 def steps (σ : St) (ops : List Op) : St := ops.foldl step σ
 
@@ -295,6 +317,6 @@ def run (sc : Script) (σ : St) : St := steps σ (runOps sc σ)
 
 /-- initial state: a catalogue, no store shards, nothing in flight. -/
 def St.init (clock d : Int) (cat : List Group) : St :=
-  ⟨clock, d, cat, [], [], [], [], .idle, d, [d], []⟩
+  ⟨clock, d, cat, [], [], [], [], [], .idle, d, [d], []⟩
 
 end OG.C14
